@@ -184,6 +184,30 @@ fn text_route(cs: &mut Cases, text: &str) {
         };
         cs.push("param-opt", format!("plain {}", h), show(flat.clone()), nontriv, format!("FromPlainOptionDecoder on the parameter {}", note));
         check_text(cs, "param-opt", meaning.is_some(), &flat);
+        if matches!(&flat, Err(e) if e == "<absent>") {
+            cs.fail_last("param-opt:value-dropped", format!("the optional parameter given as {:?} decodes to the absent optional instead of a value or an error", text));
+        }
+        // the same three decoders in their header form, for every text a header can carry
+        if let Ok(hv) = http::HeaderValue::from_str(text) {
+            use conjure_http::server::DecodeHeader;
+            let hv1 = hv.clone();
+            let r = guarded(move || <FromPlainDecoder as DecodeHeader<SafeLong>>::decode(&ConjureRuntime::new(), [&hv1]).map_err(|e| e.cause().to_string())).and_then(|r| r);
+            cs.push("header", format!("plain {}", h), show(r.clone()), nontriv, format!("FromPlainDecoder on the header {}", note));
+            check_text(cs, "header", meaning.is_some(), &r);
+            let hv1 = hv.clone();
+            let r = guarded(move || <FromPlainOptionDecoder as DecodeHeader<Option<SafeLong>>>::decode(&ConjureRuntime::new(), [&hv1]).map_err(|e| e.cause().to_string()));
+            let flat: Result<SafeLong, String> = match r {
+                Ok(Ok(Some(v))) => Ok(v),
+                Ok(Ok(None)) => Err("<absent>".into()),
+                Ok(Err(e)) => Err(e),
+                Err(p) => Err(p),
+            };
+            cs.push("header-opt", format!("plain {}", h), show(flat.clone()), nontriv, format!("FromPlainOptionDecoder on the header {}", note));
+            check_text(cs, "header-opt", meaning.is_some(), &flat);
+            if matches!(&flat, Err(e) if e == "<absent>") {
+                cs.fail_last("header-opt:value-dropped", format!("the optional header given as {:?} decodes to the absent optional instead of a value or an error", text));
+            }
+        }
         let t = text.to_string();
         let r = guarded(move || <FromPlainSeqDecoder<SafeLong> as DecodeParam<Vec<SafeLong>>>::decode(&ConjureRuntime::new(), ["1", t.as_str(), "-2"]).map_err(|e| e.cause().to_string()));
         let flat: Result<SafeLong, String> = match r {
